@@ -17,7 +17,7 @@ RULE = ("(a) id sweep on live sessions with a recording subscriber registered fo
         "(every prefix at thorough, 3 sampled at quick)}; the trusted protobuf runtime classifies each payload as parseable or not. "
         "(b) seeded subscribe/unsubscribe/dispatch histories with re-entrant callbacks (self-removal, removing a peer, adding a new subscriber, "
         "adding one for another type) over 1-4 subscribers per type, judged by a reference dispatcher with snapshot semantics. (c) peer "
-        "PingRequest / GetTimeRequest / DisconnectRequest answered (response first, then expected close). Non-trivial = a frame was sent to the "
+        "PingRequest / GetTimeRequest / DisconnectRequest answered (response first, then expected close), also when they arrive while the session is being established (behind the HelloResponse or the last answer, same or own chunk). Non-trivial = a frame was sent to the "
         "client and its effect compared; distinct = (framing, id, payload class, expectation) resp. history shape")
 ASSUMPTIONS = [
     "ids come from the api.proto text (vf.protoparse); payload validity is decided by the protobuf runtime (trusted)",
@@ -372,9 +372,78 @@ def histories(ctx: Ctx) -> None:
             res.sample({"framing": framing, "ops": ops, "dispatch": [(k, o["got"].get(k, [])) for k, _ in o["expected"]]})
 
 
+def peer_requests_during_connect(ctx: Ctx) -> None:
+    """Peer requests that arrive while the session is still being established (behind the HelloResponse, between the two answers, behind
+    the last answer - in the same chunk or in a chunk of their own) must be answered like any other."""
+    import itertools as it
+
+    from vf.sim.device import DeviceConn
+
+    res = ctx.res
+    idx = 0
+    for framing, login, req, where, same_chunk in it.product(("plain", "noise"), (False, True), ("PingRequest", "GetTimeRequest", "DisconnectRequest"),
+                                                             ("behind-hello", "behind-last-answer"), (True, False)):
+        if where == "behind-hello" and not login:
+            continue   # without login the HelloResponse IS the last answer
+        idx += 1
+        if not ctx.mine(idx):
+            continue
+        for n_req in (1, 3):
+            if req == "DisconnectRequest" and n_req > 1:
+                continue
+            with Sim() as sim:
+                cfg = DeviceConfig()
+                if framing == "noise":
+                    cfg.noise_psk = PSK
+                cfg.coalesce_replies = same_chunk
+
+                def emit(c: Any, req: str = req, n_req: int = n_req) -> None:
+                    for _ in range(n_req):
+                        c.send(req)
+
+                if where == "behind-hello":
+                    cfg.hello_extra = emit
+                else:
+                    def last(c: Any, m: Any, login: bool = login) -> None:
+                        if login:
+                            DeviceConn._h_ConnectRequest(c, m)  # noqa: SLF001
+                        else:
+                            DeviceConn._h_HelloRequest(c, m)  # noqa: SLF001
+                        emit(c)
+                    cfg.handlers["ConnectRequest" if login else "HelloRequest"] = last
+                dev = sim.device(cfg)
+                kw = {"noise_psk": base64.b64encode(PSK).decode()} if framing == "noise" else {}
+                cli = sim.client(password="pw", keepalive=1e5, **kw)
+                c0 = sim.call("connect", lambda: cli.connect(on_stop=sim.on_stop_cb(), login=login))
+                sim.run(until=lambda: c0.done, max_time=sim.clock + 100)
+                sim.run_for(1.0)
+                res.evaluations += 1
+                res.count("workload/peer-request-during-connect")
+                dconn = dev.conn
+                names = dconn.received_names()
+                answer = {"PingRequest": "PingResponse", "GetTimeRequest": "GetTimeResponse", "DisconnectRequest": "DisconnectResponse"}[req]
+                got = names.count(answer)
+                case = {"framing": framing, "login": login, "request": req, "where": where, "same_chunk": same_chunk, "n": n_req}
+                res.sig("during-connect", framing, login, req, where, same_chunk, n_req, c0.outcome)
+                res.count(f"during-connect/{req}/answered={got}/connect={c0.outcome}")
+                if got != n_req:
+                    res.violation(f"C12/during-connect/{req}-not-answered", f"device sent {n_req} {req} {where} ({'same chunk' if same_chunk else 'own chunk'}) while the "
+                                  f"session was being established; client wrote {names}", case, trace=sim.trace(60))
+                v = sim.conns[0]
+                if req == "DisconnectRequest":
+                    if v.obj.connection_state.name != "CLOSED":
+                        res.violation("C12/during-connect/disconnect-not-closed", f"state {v.obj.connection_state.name} after the device's DisconnectRequest", case, trace=sim.trace(60))
+                elif c0.outcome != "ok":
+                    res.violation("C12/during-connect/connect-failed", f"connect() {c0.outcome} {c0.exc!r} although the device only asked {req}", case, trace=sim.trace(60))
+                if c0.outcome == "ok" and v.obj.connection_state.name != "CLOSED":
+                    d = sim.call("bye", lambda: cli.disconnect(force=True))
+                    sim.run(until=lambda: d.done, max_time=sim.clock + 5)
+
+
 def shard(ctx: Ctx) -> None:
     id_sweep(ctx)
     histories(ctx)
+    peer_requests_during_connect(ctx)
 
 
 def replay(spec: dict[str, Any]) -> int:
